@@ -94,10 +94,14 @@ func (grp *Group) Use(args ...any) Router {
 	for _, prefix := range prefixes {
 		if subApp != nil {
 			grp.mount(prefix, subApp)
-			return grp
+			continue
 		}
 
 		grp.app.register([]string{methodUse}, getGroupPath(grp.Prefix, prefix), grp, handlers...)
+	}
+
+	if subApp != nil {
+		return grp
 	}
 
 	if !grp.anyRouteDefined {
